@@ -18,7 +18,7 @@ HARNESSES = [
     _h("read_at", ["stdio_read_at"]),
     _h("write_at", ["stdio_write_at"]),
     _h("write_all", ["write_all"]),
-    _h("precache", ["precache"]),
+    _h("precache", ["precache"], timeout=150),
     _h("realize_sparse", ["realize_sparse", "write_all"], malloc_fail=True,
        flags=["--memory-leak-check"],
        instrument_flags=["--replace-calls", "write_all:c12_write_all_contract"]),
